@@ -533,10 +533,10 @@ func (g *Gen) query(total bool) []interface{} {
 	}
 	if g.chance(winP) && (!total || sorted) {
 		if g.chance(0.7) {
-			bs = append(bs, []interface{}{"skip", []int{-1, 0, 1, 2, 3, 5, 50}[g.r.Intn(7)]})
+			bs = append(bs, []interface{}{"skip", []int{-1, 0, 1, 2, 3, 5, 50, 0, 1, 2, hugeBase + 1 + g.r.Intn(len(hugeArgs))}[g.r.Intn(11)]})
 		}
 		if g.chance(0.7) {
-			bs = append(bs, []interface{}{"limit", []int{-1, 0, 1, 2, 3, 10}[g.r.Intn(6)]})
+			bs = append(bs, []interface{}{"limit", []int{-1, 0, 1, 2, 3, 10, 1, 2, hugeBase + 1 + g.r.Intn(len(hugeArgs)), hugeBase + 1 + g.r.Intn(len(hugeArgs))}[g.r.Intn(10)]})
 		}
 		if g.chance(0.1) { // a later negative skip must be ignored
 			bs = append(bs, []interface{}{"skip", -2})
